@@ -1,7 +1,8 @@
 /-
   The structural invariant holds in every reachable configuration of every family of
   disciplined client programs, from every initial tree satisfying it (in particular a
-  fresh tree).  Consequences: no thread ever panics, every reachable configuration is
+  fresh tree of any even order ≥ 2), provided the order is at least 4 or no program
+  contains a Delete (`hdel`).  Consequences: no thread ever panics, every reachable configuration is
   ranked (hence not deadlocked), every step respects the write frame.
 -/
 import Gobptree.Proofs.CSStep2
@@ -21,14 +22,15 @@ theorem blocks_ok : Blocks K V where
   start := fun t s op hole ht hc hf => startOp_post t s op hole ht hc hf
   startLive := fun t s op p h => parkLive_of_live (startOp_park_live t s op p h)
   resU := fun P t s k H hole hnd hpre hk hc hkp hcov => resume_post_U P t s k H hole hnd hpre hk hc hkp hcov
-  resD := fun P t s k H hd hpre hk hkp hcov => resume_post_D P t s k H hd hpre hk hkp hcov
+  resD := fun P t s k H hd h4 hpre hk hkp hcov => resume_post_D P t s k H hd h4 hpre hk hkp hcov
   resLive := fun P t s k p h => parkLive_of_live (resume_park_live P t s k p h)
 
 /-- client programs respect the cursor discipline -/
 def Disciplined (progs : List (List (COp K V))) : Prop := ∀ p ∈ progs, disciplined .N p = true
 
 theorem init_cinv (P : Params K) (tree : Tree K V) (progs : List (List (COp K V)))
-    (ht : TreeOk none tree) (ho : tree.order = P.order) (hp : PadOk P) (hd : Disciplined progs) :
+    (ht : TreeOk none tree) (ho : tree.order = P.order) (hp : PadOk P) (hd : Disciplined progs)
+    (hdel : 4 ≤ tree.order ∨ NoDelete progs) :
     CInv (Config.init P tree progs) := by
   have hths : ∀ th ∈ (Config.init P tree progs).threads,
       ∃ p ∈ progs, th = { prog := p, pc := 0, park := .start, held := [], cursor := none, exhausted := false } := by
@@ -41,7 +43,7 @@ theorem init_cinv (P : Params K) (tree : Tree K V) (progs : List (List (COp K V)
     intro b hb
     obtain ⟨p, _, e⟩ := hths b hb
     rw [e]; rfl
-  refine ⟨⟨by rw [hhole]; exact ht, ?_, ho, hp, init_ok P tree progs, init_owner P tree progs, ?_⟩, ?_, rfl⟩
+  refine ⟨⟨by rw [hhole]; exact ht, ?_, ho, hp, init_ok P tree progs, init_owner P tree progs, ?_⟩, ?_, rfl, ?_⟩
   · intro th hth
     obtain ⟨p, _, e⟩ := hths th hth
     rw [e]; exact ⟨trivial, trivial⟩
@@ -53,18 +55,26 @@ theorem init_cinv (P : Params K) (tree : Tree K V) (progs : List (List (COp K V)
     obtain ⟨p, hpm, e⟩ := hths th hth
     rw [e]
     exact ⟨hd p hpm, rfl⟩
+  · rcases hdel with h4 | hnd
+    · exact Or.inl h4
+    · right
+      intro th hth
+      obtain ⟨p, hpm, e⟩ := hths th hth
+      rw [e]
+      exact ⟨rfl, hnd p hpm⟩
 
 /-- **the structural invariant holds in every reachable configuration** -/
 theorem reachable_cinv (P : Params K) (tree : Tree K V) (progs : List (List (COp K V)))
     (ht : TreeOk none tree) (ho : tree.order = P.order) (hp : PadOk P) (hd : Disciplined progs)
+    (hdel : 4 ≤ tree.order ∨ NoDelete progs)
     (c : Config K V) (hr : Reachable (Config.init P tree progs) c) : CInv c := by
   induction hr with
-  | refl => exact init_cinv P tree progs ht ho hp hd
+  | refl => exact init_cinv P tree progs ht ho hp hd hdel
   | @step c1 c2 t _ hs ih => exact (step_cinv blocks_ok c1 c2 t hs ih).1
 
 /-- a fresh tree satisfies the structural invariant -/
-theorem new_treeOk (o : Nat) (h4 : 4 ≤ o) (he : o % 2 = 0) : TreeOk none (Tree.new o : Tree K V) := by
-  refine ⟨⟨?_, ?_⟩, ?_, ?_, h4, he⟩
+theorem new_treeOk (o : Nat) (h2 : 2 ≤ o) (he : o % 2 = 0) : TreeOk none (Tree.new o : Tree K V) := by
+  refine ⟨⟨?_, ?_⟩, ?_, ?_, h2, fun h => absurd rfl h, he⟩
   · show ([0] : List Nat).Nodup
     simp
   · intro i hi
